@@ -121,6 +121,32 @@ func gen(r *vh.Rand) string {
 		}
 		return fmt.Sprintf("x %s %s", env, b.String())
 	}
+	if r.Chance(1, 50) {
+		// long chains and deep nesting: precedence and associativity far from the small cases
+		n := r.Range(20, 200)
+		if vh.Thorough && r.Chance(1, 4) {
+			n = r.Range(200, 1500)
+		}
+		var b strings.Builder
+		atom := func() string { return strings.Repeat("!", []int{0, 0, 0, 1, 2}[r.Intn(5)]) + string(rune('a'+r.Intn(natoms))) }
+		switch r.Intn(3) {
+		case 0:
+			for i := 0; i < n; i++ {
+				if i > 0 {
+					b.WriteString(r.Pick("&", "|", "&", "|", "_&_", "^|"))
+				}
+				b.WriteString(atom())
+			}
+		case 1:
+			b.WriteString(strings.Repeat("(", n) + atom() + r.Pick("&", "|") + atom() + strings.Repeat(")", n))
+		default:
+			for i := 0; i < n; i++ {
+				b.WriteString(atom() + r.Pick("&(", "|(", "&!(", "|!("))
+			}
+			b.WriteString(atom() + strings.Repeat(")", n))
+		}
+		return fmt.Sprintf("x %s %s", env, b.String())
+	}
 	t := genTree(r, r.Range(1, 6), natoms)
 	var b strings.Builder
 	extra := r.Pick("0", "10", "30", "60")
